@@ -2,9 +2,9 @@
 # tools/mtest_matrix.sh [ids…] — run every stored seeded defect (/verif/seeded/<id>/patch.diff, applied to a fresh scratch worktree of
 # /repo, removed afterwards) against its own property's quick check; rewrites seeded/RESULTS.tsv:
 # seeded-id, property, exit, discharged/obligations, correspondence cases, disagreements, oracle evaluations, violations, verdict line
-out=/verif/seeded/RESULTS.tsv
+out=${OUT:-/verif/seeded/RESULTS.tsv}
 ids="$@"; [ -z "$ids" ] && ids=$(ls /verif/seeded | grep -E '^C[0-9][0-9][a-z]?$')
-[ $# -eq 0 ] && echo -e "seeded\tproperty\texit\tobligations\tcorr_cases\tcorr_disagreements\toracle_evals\toracle_violations\tverdict" > $out
+[ $# -eq 0 -o ! -f $out ] && echo -e "seeded\tproperty\texit\tobligations\tcorr_cases\tcorr_disagreements\toracle_evals\toracle_violations\tverdict" > $out
 for id in $ids; do
   p=${id:0:3}
   log=$(TAILN=400 /verif/tools/mtest_patch.sh $id $p 2>&1)
